@@ -102,7 +102,9 @@ def check(run, prog):
         z = make_signal(prog, clsname, nchan=nchan, freq_align=al, start_time=has_t, backend=backend)
         ev = ck.evaluator()
         kw = {} if ref is None else {"ref_freq": q(ref)}
-        labels = ev.getattr(z, "channel_freqs", FR())
+        labels = ck.attempt("R2", f_cfs.where, "z.channel_freqs " + tag, "evaluates", lambda: ev.getattr(z, "channel_freqs", FR()), ev=ev)
+        if labels is None:
+            continue
         refq = CF * Hz if ref is None else ref * Hz
         chirp = ck.attempt("R2", f_cfs.where, "chirp_from_signal(z) " + tag, "evaluates",
                            lambda: ev.call(f_cfs, [z], kw, self_val=dm), ev=ev, allowed_guards=[])
